@@ -39,6 +39,7 @@ TRUSTED_BASE = [
     "extraction: Require Extraction + ExtrOcamlBasic only (bool/option/unit/list/prod/sumbool mapped to OCaml types; no Extract Constant/Inductive directives of our own; N/Z/positive/nat stay inductive)",
     "OCaml driver (hex/decimal parsing, printing, Digest.string as MD5 where MD5 is a section variable), ocamlfind ocamlopt 4.13.1",
     "Go harness built from /repo with -tags verif, python3 orchestrator/comparator/generators (generator coverage bounds what the tie has seen)",
+    "translators (where 'regenerated_from_source' is listed): tools/asm2coq.py (Go assembler -> instruction lists) and tools/gotocoq (Go subset -> Gallina over Model/GoSem.v: its rendering of Go's integer semantics, evaluation order and control flow is trusted)",
 ]
 
 
@@ -177,6 +178,27 @@ class Ctx:
             {"translator": " ".join(os.path.relpath(x, VERIF) if x.startswith(VERIF) else x for x in gen_cmd("<out>")),
              "generated_sha256": sha(open(gen, "rb").read()), "link": "coq/GenLink/%s.v" % link_name, "theorems": thms})
         return recs
+
+    def genlink_goarith(self):
+        """tools/gotocoq: re-translate the arithmetic functions of the Go source, re-check GenLink/GoArithLink.v.
+        Returns None or the failure text (the caller goes on to search for a concrete failing input)."""
+        try:
+            tdir = os.path.join(VERIF, "tools", "gotocoq")
+            binp = os.path.join(self.tmp, "gotocoq")
+            if not os.path.exists(binp):
+                sh(["go", "build", "-o", binp, "."], cwd=tdir, env=GOENV, timeout=600)
+            self.check_genlink(lambda out: [binp, REPO, out], "GoArithGen", "GoArithLink", "GoArith.gen")
+            return None
+        except Fail as e:
+            return str(e)
+
+    def report_genlink(self, gen_fail, link):
+        """a broken tie is a violation; without a concrete failing input from the differential runs it is reported as such"""
+        if gen_fail:
+            self.violation("the theorems no longer check against the source re-translated this run: %s%s" %
+                           (gen_fail[:700], " (a concrete failing input was found by the differential runs: see the other violations)" if self.violations else ""),
+                           {"cases": [], "theorem": "coq/GenLink/%s.v against the regenerated definitions" % link, "detail": gen_fail[-3000:],
+                            "class": {"kind": "genlink", "link": link}}, no_failing_input=not self.violations)
 
     def build_model(self):
         model = os.path.join(OCAML, "model")
